@@ -284,6 +284,12 @@ def g_scores(C):
     thr = P["ENDGAME_THRESHOLD"]
     C["ENDGAME_THRESHOLD"] = thr
 
+    return dict(tables=tables, thr=thr)
+
+
+def g_piece_facts(C):
+    """Facts about the piece enums that every hash, score and text exercises on every case (SOFT group: when the text can
+    no longer be read the last good values are kept and recorded as drift; a changed value shows up in the first case)."""
     mod = read("src/chess/mod.rs")
     # table order in Game::new must match PieceType order
     m = need("mod.piece_scores_order", r"let piece_scores: \[Cell<&\[i16; 64\]>; 6\] = \[(.*?)\];", mod)
@@ -311,7 +317,7 @@ def g_scores(C):
     need_shape("piece.as_index", r"let mut index = self\.piece_type as usize;\s*if self\.owner == Player::Black \{\s*index \+= 6;", pc)
     need_shape("piece.score.row", r"Player::White => 7 - pos\.row\(\),\s*Player::Black => pos\.row\(\),", pc)
     need_shape("piece.score.sign", r"piece_score \* self\.owner as Score", pc)
-    return dict(tables=tables, thr=thr, mat=mat, ptorder=ptorder)
+    return dict(mat=mat, ptorder=ptorder)
 
 
 def g_deltas(C):
@@ -559,11 +565,17 @@ def g_unsafe(C):
 GROUPS = [
     ('zobrist', g_zobrist, ['C03', 'C04', 'C05', 'C06', 'C11', 'C17', 'C18', 'C19']),
     ('scores', g_scores, ['C03', 'C09', 'C10', 'C16', 'C19']),
+    ('piece facts', g_piece_facts, ['C04', 'C09', 'C16']),
     ('deltas', g_deltas, ['C01', 'C02', 'C03', 'C06', 'C07', 'C09', 'C10', 'C12', 'C15', 'C18', 'C19']),
     ('letters', g_letters, ['C11', 'C12', 'C17', 'C20']),
     ('capacities & search constants', g_constants, ['C06', 'C07', 'C08', 'C09', 'C10', 'C13', 'C15', 'C18', 'C19']),
     ('unchecked-site inventory', g_unsafe, ['C15']),
 ]
+
+
+# groups whose values every single case exercises (letters in every text, piece order / colours / material values in every
+# hash and score): unreadable => last good values + drift (widened search), not a broken tie
+SOFT_GROUPS = {"letters", "piece facts"}
 
 
 def f64_mant(text):
@@ -817,7 +829,12 @@ def main():
         with open(cache_path) as f:
             cache = json.load(f)
     except Exception:
-        cache = {}
+        # no run on this checkout yet: the values recorded on the validated tree (committed next to validated_source.json)
+        try:
+            with open(os.path.join(os.path.dirname(os.path.abspath(__file__)), "..", "validated_extract.json")) as f:
+                cache = json.load(f)
+        except Exception:
+            cache = {}
     V, C, broken = {}, {}, []
     CACHE.update(cache)
     for name, fn, props in GROUPS:
@@ -828,6 +845,10 @@ def main():
         except ExtractError as e:
             if name not in cache:
                 raise
+            if name in SOFT_GROUPS:
+                DRIFT.append({"item": e.item, "pattern": str(e)[:100], "kept_last_good": "group " + name})
+                V.update(cache[name])
+                continue
             broken.append({"group": name, "item": e.item, "msg": str(e)[:300], "properties": props_of_item(e.item, props)})
             vals = cache[name]
         V.update(vals)
